@@ -291,11 +291,11 @@ def analyse(ur, diags, res):
             continue
         kind = classify(msg)
         low = (msg + ' ' + (d.get('rendered') or '')).lower()
+        if any(u in low for u in ['rlimit exceeded', 'resource limit']):
+            undecided.append('rlimit: ' + msg.strip() + ' :: ' + (d.get('rendered') or '')[:600])
+            continue
         if kind is None:
             undecided.append(msg.strip() + ' :: ' + (d.get('rendered') or '')[:600])
-            continue
-        if any(u in low for u in ['rlimit exceeded', 'resource limit']):
-            undecided.append('rlimit: ' + msg)
             continue
         spans = d.get('spans', [])
         here = [s for s in spans if os.path.basename(s['file_name']) == os.path.basename(ur.file)]
@@ -775,6 +775,19 @@ def _main(pid, P, tier, repo, seed, scratch, ev_path, t0):
     for ui, (ur, (rc, res, diags, err, wall, cmd)) in enumerate(zip(urs, results)):
         checker_cmds.append(cmd)
         failures, und = analyse(ur, diags, res)
+        n_rl = sum(1 for x in und if x.startswith('rlimit:'))
+        if n_rl:
+            # a query that ran out of resources is re-run once (whole unit, other seed, six times the resource limit); the
+            # re-run replaces the first run when fewer queries run out: it is the same text checked by the same verifier
+            key = ('rerun-rlimit', ur.unit)
+            if key not in cache:
+                cache[key] = verus(ur.file, scratch, ['--smt-option', 'smt.random_seed=%d' % ((seed + 104729) % 100000), '--rlimit', '60'])
+            rc2, res2, diags2, err2, wall2, cmd2 = cache[key]
+            f2, und2 = analyse(ur, diags2, res2)
+            if res2 is not None and sum(1 for x in und2 if x.startswith('rlimit:')) < n_rl:
+                rc, res, diags, err, wall, cmd = rc2, res2, diags2, err2, wall + wall2, cmd2
+                failures, und = f2, und2
+                checker_cmds[-1] = cmd
         undecided += und
         # vacuity guard: every reachability probe must fail, except inside a function that already has a failed obligation
         unexplained = [(fid, l) for (fid, l) in probes[ui][2] if not any(f.get('fn') == fid for f in failures)]
